@@ -27,12 +27,28 @@ for root, _d, files in os.walk(os.path.join(V, "olsa")):
         tree = ast.parse(open(p).read())
         doc_ids = {id(n.value) for n in ast.walk(tree) if isinstance(n, ast.Expr) and isinstance(n.value, ast.Constant)}
         found = set()
+        # descriptive positions: the `what`/`where`/`sample` labels of a result and the first argument
+        # of rr.ok() name obligations for the evidence file, they are never matched against the repository
+        for n in ast.walk(tree):
+            lab = []
+            if isinstance(n, ast.Call):
+                lab += [k.value for k in n.keywords if k.arg in ("what", "where", "sample")]
+                if isinstance(n.func, ast.Attribute) and n.func.attr == "ok" and n.args:
+                    lab.append(n.args[0])
+            elif isinstance(n, ast.Assign) and any(isinstance(t, ast.Name) and t.id in ("what", "where") for t in n.targets):
+                lab.append(n.value)
+            for v in lab:
+                doc_ids |= {id(c) for c in ast.walk(v) if isinstance(c, ast.Constant)}
         for n in ast.walk(tree):
             if isinstance(n, ast.Constant) and isinstance(n.value, str) and id(n) not in doc_ids:
                 # messages (long prose) mention names too, but only short literals are used for matching
                 if len(n.value) > 60 or " " in n.value.strip():
                     continue
-                for tok in re.findall(r"[A-Za-z_][A-Za-z0-9_]*", n.value):
+                text = n.value
+                if "|" in text:
+                    # a finding key: its hyphenated verdict words are English, not identifiers
+                    text = re.sub(r"[A-Za-z_0-9]+(?:-[A-Za-z_0-9]+)+", " ", text)
+                for tok in re.findall(r"[A-Za-z_][A-Za-z0-9_]*", text):
                     if tok in names and tok not in generic and len(tok) >= 4:
                         found.add(tok)
         if found:
